@@ -394,7 +394,9 @@ def used_by(c, prop):
 
 
 def base_name(name):
-    return name
+    """obligation name without source positions and path ordinals: stable under edits that move code"""
+    import re
+    return re.sub(r'~\d+$', '', re.sub(r'@-?\d+\.\d+', '', name))
 
 
 def load_baseline(prop):
